@@ -109,6 +109,62 @@ func newResult(fn string, ps []uint, q uint) string {
 	}
 }
 
+// newWithFault: v2 priority.New with a divider that mis-allocates at creation (C15: "New itself returns ErrDividerBad")
+func newWithFault(fn string, ps []uint, q uint, kind string) (string, uint) {
+	base := divider.Divider(divider.Fair)
+	if fn == "rate" {
+		base = divider.Rate
+	}
+	total := uint(0)
+	d := func(p []uint, dd uint, dist map[uint]uint) {
+		base(p, dd, dist)
+		switch kind {
+		case "over":
+			dist[p[0]]++
+		case "under":
+			for _, x := range p {
+				if dist[x] > 0 {
+					dist[x]--
+					break
+				}
+			}
+		case "double":
+			for _, x := range p {
+				dist[x] *= 2
+			}
+		}
+		total = 0
+		for _, v := range dist {
+			total += v
+		}
+	}
+	inputs := map[uint]<-chan int{}
+	chans := []chan int{}
+	for _, p := range ps {
+		ch := make(chan int)
+		chans = append(chans, ch)
+		inputs[p] = ch
+	}
+	dsc, err := v2.New(v2.Opts[int]{Divider: d, HandlersQuantity: q, Inputs: inputs})
+	createTotal := total
+	res := "other"
+	switch {
+	case err == nil:
+		for _, ch := range chans {
+			close(ch)
+		}
+		for range dsc.Output() {
+		}
+		<-dsc.Err()
+		res = "ok"
+	case errors.Is(err, v2.ErrDividerBad):
+		res = "bad"
+	case errors.Is(err, v2.ErrHandlersQuantityTooSmall):
+		res = "toosmall"
+	}
+	return res, createTotal
+}
+
 var limitsGrid = []float64{0, 1, 5, 10, 20, 35, 50, 75, 100}
 
 func recordUtils(out *ndjson, rnd interface {
@@ -127,6 +183,12 @@ func recordUtils(out *ndjson, rnd interface {
 				nf = append(nf, res)
 			}
 			out.put(map[string]any{"k": "nf", "ver": h.ver, "fn": h.fn, "ps": given, "q": q, "res": res, "rows": rowsFor(h, desc, q)})
+			if withNew && h.ver == 2 && q >= 1 && q%3 == 1 {
+				for _, kind := range []string{"over", "under", "double"} {
+					res, total := newWithFault(h.fn, desc, q, kind)
+					out.put(map[string]any{"k": "newfault", "ver": 2, "fn": h.fn, "ps": desc, "q": q, "kind": kind, "total": total, "res": res})
+				}
+			}
 			if withNew && h.ver == 2 && q >= 1 {
 				out.put(map[string]any{"k": "new", "ver": 2, "fn": h.fn, "ps": desc, "q": q, "nf": res,
 					"res": newResult(h.fn, desc, q), "share": pairs(h.divide(desc, q))})
